@@ -3,7 +3,7 @@ from __future__ import annotations
 
 import ast
 
-from .. import AnalysisError, flow, states, guards, cmp, rules
+from .. import AnalysisError, flow, states, guards, cmp, rules, gd
 from ..report import Ctx
 from . import c05
 
@@ -247,11 +247,7 @@ def dropoff(ctx: Ctx):
             a = [flow.dump(x) for x in e.call.args]
             moved = f"move({sim}, {env}, self.vehicle_id)[1]"
             ok_args = a == [moved, env, "self.vehicle_id", "self.request"]
-            empty = False
-            for at, pol in p.facts():
-                d = flow.dump(at)
-                if d == f"len({moved}.vehicles.get(self.vehicle_id).vehicle_state.route) == 0" and pol is True:
-                    empty = True
+            empty = gd.allowed_lengths(p.facts(), f"{moved}.vehicles.get(self.vehicle_id).vehicle_state.route") == {0}
             ctx.check(ok_args and empty, "D5", "DU.provenance", "ServicingTrip drops off its own request with its own vehicle, only when the moved vehicle's route is empty", fn, e.raw,
                       why_bad=f"drop_off_trip({', '.join(a)[:160]}) route-empty guard={empty}", construct="ServicingTrip._perform_update:dropoff")
             break
@@ -299,11 +295,9 @@ def cancellation(ctx: Ctx, timing: bool = True):
     rules.rule_fold_threading(ctx, "D6", outer, 1)
     # the fold ranges over every request id of the state
     ok = False
-    for p in flow.paths(outer.node):
-        if p.kind == "return":
-            for c in flow.calls_in(p.value, "reduce"):
-                ok = len(c.args) >= 3 and flow.dump(c.args[0]) == "_remove_from_sim" and flow.dump(c.args[2]) == outer.params[1] \
-                    and (not timing or flow.dump(c.args[1]) == f"{outer.params[1]}.get_request_ids()")
+    for F, XS, INIT in rules.recognise_folds(outer):  # reduce(...) or the equivalent accumulator loop
+        if flow.dump(F) == "_remove_from_sim":
+            ok = flow.dump(INIT) == outer.params[1] and (not timing or flow.dump(XS) == f"{outer.params[1]}.get_request_ids()")
     ctx.check(ok, "D6", "CMP.cancel", "the cancel fold " + ("visits every request id of the state, " if timing else "") + "starts from the state it was given", outer,
               why_bad="fold shape changed", construct="CancelRequests.update:fold")
 
